@@ -16,7 +16,7 @@ let parse_decl w =
   let n = nat_of_int (int_of_string (String.sub w 1 (String.length w - 1))) in
   match w.[0] with
   | 'i' -> Some (KImport, n) | 'e' -> Some (KExport, n) | 'f' -> Some (KForward, n)
-  | 'F' | 'B' -> Some (KFunc, n) | 'D' -> Some (KData, n) | 'P' -> Some (KProto, n)
+  | 'F' | 'B' -> Some (KFunc, n) | 'D' | 'S' -> Some (KData, n) | 'P' -> Some (KProto, n)
   | _ -> None
 
 let is_quiet s = match words s with "K" :: _ :: ["q"] -> true | _ -> false
